@@ -7,18 +7,25 @@ AST *before* execution (input predicates) and either weaken the comparison or ro
 import json
 from collections import Counter
 from rdflib import Graph, Dataset, URIRef, BNode, Literal, Variable
+from rdflib.graph import DATASET_DEFAULT_GRAPH_ID
 from rv.terms import enc, dec, lkey
 from rv.model import sparqlref as R
 from rv import gen_query as Q
 from rv.iso import iso
 from rv.lanes import run_cases
+from rv import equiv as EQ
+import random, os
 
 ID = "C04"
 LEVEL = "exploration"
 RULE = ("random (query, data) pairs: queries nest BGPs, group joins, OPTIONAL with/without FILTER on inner/outer/unbound variables, UNION, MINUS with shared/disjoint domains, "
         "FILTER anywhere, BIND, VALUES with UNDEF, sub-SELECT hiding variables, GRAPH <iri>/?g over a Dataset, EXISTS/NOT EXISTS, comparison/logical/arithmetic expressions, to "
         "depth 4, in SELECT, ASK and CONSTRUCT form; data: 3-15 triples over a tiny vocabulary so joins hit and optionals both match and fail. Non-trivial: the reference "
-        "result is non-empty and the query has >=2 operator kinds. Distinct = distinct (query text, data).")
+        "result is non-empty and the query has >=2 operator kinds. Distinct = distinct (query text, data). Default-graph triples reach a Dataset in the 4 ways the API offers "
+        "(add(triple), add(quad with the default id), graph(default id).add, a second Dataset on the same store). Lane equiv: for queries that use only term-generic operators, "
+        "renaming IRIs (and literals, when no operator looks at a value) by a kind-preserving bijection in data and query must rename the answer (no reference involved, so it "
+        "also runs inside the carved regions). Lane pin: every case of corpus/C04-scoping.jsonl (queries inside the carved push-down region on which the tree answers as the "
+        "algebra does because of one of the engine's scoping provisions) is judged against the reference without carve-out.")
 ASSUMPTIONS = ["the reference transcribes SPARQL 1.1 sections 17-18 for the generated fragment and is calibrated on spec examples at setup",
                "cases whose result could depend on an answer SPARQL leaves open (=,!= across datatypes, < outside the operator table, NaN) are dropped and counted",
                "FROM/SERVICE are not generated (no network)", "active default graph = union iff the Dataset was built with default_union"]
@@ -34,6 +41,7 @@ def gen_data(rng, dataset):
             if rng.random() < 0.8:
                 d["named"][str(g)] = [[enc(x) for x in t] for t in triples(rng.randint(1, 6))]
         d["union"] = rng.random() < 0.4
+        d["how"] = rng.choice([0, 0, 1, 2, 3])
     return d
 
 
@@ -55,7 +63,14 @@ def build(data, dataset):
         for t in data["default"]: g.add(tuple(dec(x) for x in t))
         return g
     ds = Dataset(default_union=data["union"])
-    for t in data["default"]: ds.add(tuple(dec(x) for x in t))
+    how = data.get("how", 0)     # the ways the API offers to put a triple into the default graph
+    if how == 3: view = Dataset(store=ds.store, default_union=data["union"])
+    for t in data["default"]:
+        tr = tuple(dec(x) for x in t)
+        if how == 1: ds.add(tr + (DATASET_DEFAULT_GRAPH_ID,))
+        elif how == 2: ds.graph(DATASET_DEFAULT_GRAPH_ID).add(tr)
+        elif how == 3: view.add(tr)
+        else: ds.add(tr)
     for name, ts in data["named"].items():
         for t in ts: ds.add(tuple(dec(x) for x in t) + (URIRef(name),))
     return ds
@@ -242,10 +257,104 @@ def lane_queries(ctx):
             ctx.violation(r2[0], small, r2[1])
 
 
-LANES = {"queries": dict(fn=lane_queries, quick=20000, thorough=400000)}
-REQUIRED_COUNTERS = {"any": ["cmp:multiset", "cmp:ask", "cmp:construct", "cmp:form:select"]}
+# ------------------------------------------------------------------ equivariance under a permutation of the data's terms (no reference involved)
+def query_text(case, where=None, template=None):
+    where = where if where is not None else case["where"]
+    vars_ = sorted(R.in_scope(where))
+    if case["form"] == "select": return "SELECT %s WHERE %s" % (" ".join("?" + v for v in vars_) if vars_ else "*", Q.rpat(where))
+    if case["form"] == "ask": return "ASK %s" % Q.rpat(where)
+    return "CONSTRUCT { %s } WHERE %s" % (" ".join("%s %s %s ." % tuple(Q.rt(x) for x in tr) for tr in (template if template is not None else case["template"])), Q.rpat(where))
+
+
+def answer(g, case, text):
+    res = g.query(text)
+    if case["form"] == "select": return ("rows", Counter(frozenset((str(k), R.rkey(v)) for k, v in b.items() if v is not None) for b in res.bindings))
+    if case["form"] == "ask": return ("ask", res.askAnswer)
+    return ("graph", frozenset(tuple(R.rkey(x) for x in t) for t in res.graph))
+
+
+def run_equiv(case, st=None):
+    st = st if st is not None else {}
+    mode = EQ.group_mode(case["where"])
+    if mode is None:
+        st.setdefault("_count", {})["equiv_not_generic"] = 1; return None
+    rng = random.Random(case.get("pseed", 0))
+    m = EQ.make_pi(mode, rng)
+    if not m: return None
+    def pk(k):   # pi on a result key
+        if k is None or k[0] == "num" and k[1] != 0: 
+            pass
+        return k
+    data2 = dict(case["data"], default=[[EQ.pi_enc(m, x) if i != 1 else x for i, x in enumerate(t)] for t in case["data"]["default"]],
+                 named={n: [[EQ.pi_enc(m, x) if i != 1 else x for i, x in enumerate(t)] for t in ts] for n, ts in case["data"]["named"].items()})
+    where2 = EQ.pi_ast(m, case["where"])
+    tmpl2 = EQ.pi_ast(m, case.get("template")) if case.get("template") else None
+    t1 = query_text(case); t2 = query_text(case, where2, tmpl2)
+    try:
+        g1 = build(case["data"], case["dataset"]); g2 = build(data2, case["dataset"])
+        res1 = g1.query(t1); res2 = g2.query(t2)
+        if case["form"] == "select":
+            a1 = Counter(frozenset((str(k), R.rkey(EQ.pi_term(m, v))) for k, v in b.items() if v is not None) for b in res1.bindings)
+            a2 = Counter(frozenset((str(k), R.rkey(v)) for k, v in b.items() if v is not None) for b in res2.bindings)
+        elif case["form"] == "ask":
+            a1, a2 = res1.askAnswer, res2.askAnswer
+        else:
+            a1 = frozenset(tuple(R.rkey(EQ.pi_term(m, x)) for x in t) for t in res1.graph)
+            a2 = frozenset(tuple(R.rkey(x) for x in t) for t in res2.graph)
+    except Exception as ex:
+        st.setdefault("_count", {})["equiv_query_raises"] = 1
+        return None      # raising is judged by the reference lane
+    st["equivariance:" + mode] = 1
+    st["_nontrivial"] = 1 if a1 else 0
+    if a1 != a2:
+        show = lambda a: a if isinstance(a, bool) else [sorted(x) for x in (a - a2 if a is a1 else a - a1)][:3] if isinstance(a, Counter) else sorted(a ^ (a2 if a is a1 else a1))[:3]
+        return ("equivariance", "%s\nand, with the terms renamed by %s in data and query,\n%s\ngive answers that are not renamings of each other: renamed first answer has %s, second has %s" % (
+            t1, {str(k[1]): str(v) for k, v in m.items()}, t2, show(a1), show(a2)))
+    return None
+
+
+def gen_equiv(rng):
+    for _ in range(50):
+        case = gen_case(rng)
+        if EQ.group_mode(case["where"]) is not None:
+            case["kind"] = "equiv"; case["pseed"] = rng.randrange(1 << 30)
+            return case
+    return None
+
+
+def lane_equiv(ctx):
+    run_cases(ctx, gen_equiv, run_equiv, None, sample=lambda c: dict(query=Q.rpat(c["where"])[:300], mode=EQ.group_mode(c["where"])))
+
+
+# ------------------------------------------------------------------ pinned cases inside the carved push-down region
+CORPUS = os.path.join(os.path.dirname(os.path.dirname(os.path.dirname(os.path.abspath(__file__)))), "corpus", "C04-scoping.jsonl")
+
+
+def lane_pin(ctx):
+    """every corpus case: a query that hits a static push-down trigger, on which the tree answers as the algebra does and one of the engine's
+    scoping provisions is what makes it so (selftest/mkcorpus.py); judged against the reference at full strength (no carve-out)"""
+    n = 0
+    with open(CORPUS) as fh:
+        for i, line in enumerate(fh):
+            if i % ctx.nshards != ctx.shard: continue
+            case = json.loads(line)
+            st = {}
+            r = run_case(dict(case, no_carve=True), st)
+            ctx.case(); n += 1
+            ctx.fp("pin:%d" % i, True)
+            ctx.cmp("pinned-scoping-case", 1)
+            for pv in case.get("provisions", []): ctx.seen("provisions", pv)
+            if st.get("_count"): ctx.count("pin_dropped_by_reference", 1)
+            if r:
+                ctx.violation("pinned:" + r[0], dict(case, no_carve=True), "a query inside the carved push-down region that the tree used to answer per the algebra no longer is: " + r[1])
+    ctx.exhaustive_done = True
+
+
+LANES = {"pin": dict(fn=lane_pin, quick=1, thorough=1, exhaustive=True),
+         "queries": dict(fn=lane_queries, quick=20000, thorough=400000), "equiv": dict(fn=lane_equiv, quick=6000, thorough=120000)}
+REQUIRED_COUNTERS = {"any": ["cmp:multiset", "cmp:ask", "cmp:construct", "cmp:form:select", "cmp:equivariance:literal", "cmp:equivariance:iri", "cmp:pinned-scoping-case"]}
 
 
 def replay(w):
-    r = run_case(w)
+    r = run_equiv(w) if w.get("kind") == "equiv" else run_case(w)
     return None if not r else "%s: %s" % r
